@@ -282,8 +282,11 @@ static std::string accName(double a) { char b[32]; snprintf(b, sizeof b, "%.0e",
 // ------------------------------------------------------------------------------------------------ oracles shared by all sections
 struct Tol { bool analytic; double acc, consTol; };
 struct Checker {
-    verif::Run& run; const Surface& S; std::string desc; double rho;
-    Checker(verif::Run& r, const Surface& s, const std::string& d) : run(r), S(s), desc(d), rho(s.rhoChar) {}
+    verif::Run& run; const Surface& S; std::string desc; double rho; const ContactGeometry* geo;
+    Checker(verif::Run& r, const Surface& s, const std::string& d, const ContactGeometry* g = nullptr) : run(r), S(s), desc(d), rho(s.rhoChar), geo(g) {}
+    // The documented constraint tolerance applies to the library's own surface function, whose scaling is not documented and differs between
+    // shapes: a value tolerance tol corresponds to the distance tol / |gradient of that function|.
+    double lenPerValue(const Vec3& p) const { if (!geo) return S.rhoMaxHalf; const double g = geo->calcSurfaceGradient(p).norm(); return g > 0 ? 1 / g : S.rhoMaxHalf; }
     std::function<std::string()> whereFn() const { std::string d = desc; return [d] { return d; }; }
     // bound on the amplification of a perturbation made before arc length s (Rauch comparison: linear growth for K >= 0, exp(int sqrt(-K)) for K < 0)
     double amp(const RefPt& q, double s) const { return (1 + s / S.rhoMin) * (double)q.growth; }
@@ -317,7 +320,7 @@ struct Checker {
             const L3 p = toL(K[k].point), t = toL(Vec3(K[k].tangent));
             const L3 n = S.nrm(p);
             // (a) on the surface, (b) unit tangent perpendicular to the normal -- independent closed forms
-            wSurf = std::max(wSurf, (double)S.dist(p) / (tol.analytic ? 1e-15 * rho * (10 + (double)K.size()) : tol.consTol * S.rhoMaxHalf * 1.001 + 1e-15 * rho));
+            wSurf = std::max(wSurf, (double)S.dist(p) / (tol.analytic ? 1e-15 * rho * (10 + (double)K.size()) : tol.consTol * lenPerValue(K[k].point) * 1.001 + 1e-15 * rho));
             wPerp = std::max(wPerp, (double)fabsl(dotl(n, t)) / (tol.analytic ? 1e-15 * (10 + (double)K.size()) : tol.consTol * std::max(1.0, S.rhoMaxHalf) + 1e-14));
             wUnit = std::max(wUnit, std::abs((double)norml(t) - 1));
             // (c) agreement with the reference geodesic at the knot's own arc length
@@ -340,7 +343,7 @@ struct Checker {
         auto wk = [&] { return desc + " (" + tag + ", " + std::to_string(K.size()) + " knots, worst at knot " + std::to_string(kPos) + ")"; };
         run.residual(tag + "-knot-on-surface/" + sfx, wSurf, 1.0, wk);
         run.residual(tag + "-tangent-perpendicular-to-normal/" + sfx, wPerp, 1.0, wk);
-        run.residual(tag + "-tangent-unit/" + sfx, wUnit, 1e-14, wk);
+        run.residual(tag + "-tangent-unit/" + sfx, wUnit, 1e-13, wk);
         const double C = tol.analytic ? 100 : 30;
         run.residual(tag + "-knot-position-vs-reference/" + sfx + at, wPos, C, wk);
         run.residual(tag + "-knot-tangent-vs-reference/" + sfx + at, wTan, C, wk);
@@ -390,7 +393,7 @@ struct Checker {
             const L3 p = toL(F.p()), t = toL(Vec3(F.y())), n3 = S.nrm(p); const RefPt q = refForP->at(s);
             const double A = amp(q, s);
             const double tolPos = analyticObj ? 1e-14 * rho * (1 + s / S.rhoMin) : A * ((double)k * acc + (k + 1) * ctol * S.rhoMaxHalf) + 1e-13 * rho;
-            wSurf = std::max(wSurf, (double)S.dist(p) / (analyticObj ? 1e-14 * rho : ctol * S.rhoMaxHalf * 1.001 + 1e-15 * rho));
+            wSurf = std::max(wSurf, (double)S.dist(p) / (analyticObj ? 1e-14 * rho : ctol * lenPerValue(F.p()) * 1.001 + 1e-15 * rho));
             wNormal = std::max(wNormal, (double)norml(toL(Vec3(F.z())) - n3));                       // z = outward unit normal
             wFrame = std::max(wFrame, (Vec3(F.x()) - Vec3(F.y()) % Vec3(F.z())).norm() + std::abs(dot(Vec3(F.y()), Vec3(F.z()))) + std::abs(Vec3(F.y()).norm() - 1) + std::abs(Vec3(F.z()).norm() - 1));
             wPos = std::max(wPos, (double)norml(p - q.p) / tolPos);
@@ -530,7 +533,7 @@ int main(int argc, char** argv) {
 
         // ------------------------------------------------------------------ knot-list oracle (shared by all shooters)
         // mode: "implicit" (acc, consTol) or "analytic"
-        Checker ck(run, S, desc);
+        Checker ck(run, S, desc, &g);
         auto amp = [&](const RefPt& q, double s) { return ck.amp(q, s); };
         auto checkKnots = [&](const std::vector<Knot>& K, const std::string& tag, const Tol& tol, double Lreq, const Vec3& pIn, const Vec3& tIn, bool exactStart, double startOffset) { return ck.checkKnots(K, tag, tol, Lreq, pIn, tIn, exactStart, startOffset); };
         auto checkGeodesic = [&](const Geodesic& geod, const std::string& tag, bool analyticObj, double Lexp, bool lengthExact, const RefCurve* refForP, bool hasReverse) { return ck.checkGeodesic(geod, tag, analyticObj, Lexp, lengthExact, refForP, hasReverse); };
@@ -596,7 +599,7 @@ int main(int argc, char** argv) {
                     const L3 n = S.nrm(toL(K[4].point)); const Vec3 t = Vec3(K[4].tangent); const Vec3 b = t % toD(n);
                     if ((a1 - a2).norm() <= 1e-4 / S.rhoMin) {
                         run.residual("analytic-geodesic-curvature-by-finite-differences/" + S.kind, std::abs(dot(acc2, b)) * S.rhoMin, 1e-8, where);
-                        run.residual("analytic-normal-curvature-by-finite-differences/" + S.kind, std::abs(-dot(acc2, toD(n)) - (double)S.normalCurvature(toL(K[4].point), toL(t))) * S.rhoMin, 1e-8, where);
+                        run.residual("analytic-normal-curvature-by-finite-differences/" + S.kind, std::abs(-dot(acc2, toD(n)) - (double)S.normalCurvature(toL(K[4].point), toL(t))) * S.rhoMin, 1e-6, where);
                         const Vec3 v1 = (K[3].point * -8.0 + K[5].point * 8.0 + K[2].point - K[6].point) / (12.0 * h);
                         const Vec3 v2 = (K[2].point * -8.0 + K[6].point * 8.0 + K[0].point - K[8].point) / (24.0 * h);
                         run.residual("analytic-arc-length-parameter-by-finite-differences/" + S.kind, ((16.0 * v1 - v2) / 15.0 - t).norm(), 1e-6, where);
@@ -800,7 +803,8 @@ int main(int argc, char** argv) {
         const std::string desc = S.name + " vs=" + std::to_string(vs) + " start(i=" + std::to_string(pi) + ",j=" + std::to_string(pj) + ")=" + s3(P) + " dir=" + std::to_string(di) + " t=" + s3(T) +
                                  " L=" + sd(L) + " plane=" + (pl == 0 ? "normal-to-curve" : "tilted-towards-surface-normal");
         auto where = [&] { return desc; };
-        Checker ck(run, S, desc);
+        std::unique_ptr<ContactGeometry> gScale = S.make();
+        Checker ck(run, S, desc, gScale.get());
         std::unique_ptr<RefCurve> ref0 = S.curve(toL(P), toL(T), (LD)L);
         const bool refOK = (double)ref0->halving <= 1e-9 * S.rhoChar;
         run.evaluation(verif::hashStr(desc + "/history"), refOK);
